@@ -255,6 +255,10 @@ pub struct RunScript {
     /// holds one token (an environment the tool has no business reacting to)
     #[serde(default)]
     pub make_jobserver: bool,
+    /// a listener fault that is triggered by a write waits until monorail has read that write (load-independent
+    /// quiescence) before it strikes: with a long flush interval the bytes are then certainly read and not yet flushed
+    #[serde(default)]
+    pub quiesce_before_lfaults: bool,
 }
 
 fn port_listening(port: u16) -> bool {
@@ -321,6 +325,7 @@ impl RunScript {
             quiesce_before_failures: false,
             listener_args: vec![],
             make_jobserver: false,
+            quiesce_before_lfaults: false,
         }
     }
     pub fn behav_for(&self, command: &str, target: &str) -> Option<&Behav> {
@@ -535,6 +540,12 @@ pub fn drive_run_l(w: &mut World, actor: &str, sc: &RunScript, hang: Duration, l
             if let Some(l) = listener {
                 for f in &sc.lfaults {
                     if f.at == $trig {
+                        if sc.quiesce_before_lfaults && matches!($trig, LTrigger::AfterOut { .. }) {
+                            // what the child has just written has been read by monorail (no thread of it is runnable
+                            // any more) and, with a long flush interval, is still sitting in the reader's hands
+                            let pid = ctl.procs[proc_id].pid;
+                            let _ = wait_quiescent(pid, 4, Duration::from_millis(2), Duration::from_secs(1));
+                        }
                         match f.action {
                             LAction::Kill => {
                                 if tr.listener_exit.is_none() {
